@@ -48,7 +48,8 @@ REQUIRED = ["programs", "steps_checked", "timed_resumes", "select_timeouts",
             "select_same_descriptor_for_reading_and_writing",
             "descriptors_closed_right_after_their_wait",
             "descriptor_numbers_reused",
-            "programs_with_the_hub_as_its_own_thread"]
+            "programs_with_the_hub_as_its_own_thread",
+            "programs_with_very_many_tasks"]
 TIMEOUT = {"quick": 1200, "thorough": 9000}
 
 _st = {}
@@ -108,9 +109,32 @@ def run_program (case, rep):
     # own thread: schedule() takes its direct branch, not the ScheduleTask one
     sched._thread = threading.current_thread()
     rep.count("programs_on_the_scheduler_thread")
+  # the hub's wake-up pipe must never be read while it is empty (the read
+  # would block the thread that runs the scheduler): watched for the
+  # programs with very many tasks, where the number of pending pings passes
+  # the size of one read
+  import pox.lib.util as U
+  import os as _os, select as _sel
+  saved_os = U.os
+  if case.get("mass"):
+    blocked = []
+    class OsShim (object):
+      def __getattr__ (self, n): return getattr(_os, n)
+      def read (self, fd, n):
+        if not _sel.select([fd], [], [], 0)[0]:
+          blocked.append(fd)
+          raise BlockingIOError("read of an empty wake-up pipe")
+        return _os.read(fd, n)
+    U.os = OsShim()
+    rep.count("programs_with_very_many_tasks")
   try:
-    return _run_program(case, rep, w, clock, sched, fire, rc)
+    r = _run_program(case, rep, w, clock, sched, fire, rc)
+    if case.get("mass") and blocked:
+      fire("the wake-up pipe is read while empty (would block the scheduler thread)",
+           "%d tasks" % len(case["tasks"]))
+    return r
   finally:
+    U.os = saved_os
     sched._thread = saved_thread
     if case.get("realfd") and _st.get("w") is w:
       # (also after a violation: nothing of this program stays behind)
@@ -882,7 +906,8 @@ def plan (tier, seed):
             [dict(mode="small", epoll=False, shard=i, nshards=4, hubmode="threaded")
              for i in range(2)] +
             [dict(mode="rand", epoll=e, n=250, sub=10 + i, hubmode="threaded")
-             for e in (False, True) for i in range(2)])
+             for e in (False, True) for i in range(2)] +
+            [dict(mode="mass", epoll=False), dict(mode="mass", epoll=False, hubmode="threaded")])
   return ([dict(mode="small", epoll=e, shard=i, nshards=2) for e in (False, True)
            for i in range(2)] +
           [dict(mode="rand", epoll=e, n=12000, sub=i) for e in (False, True)
@@ -890,13 +915,34 @@ def plan (tier, seed):
           [dict(mode="small", epoll=False, shard=i, nshards=2, hubmode="threaded")
            for i in range(2)] +
           [dict(mode="rand", epoll=e, n=12000, sub=20 + i, hubmode="threaded")
-           for e in (False, True) for i in range(6)])
+           for e in (False, True) for i in range(6)] +
+          [dict(mode="mass", epoll=False), dict(mode="mass", epoll=False, hubmode="threaded"),
+           dict(mode="mass", epoll=True)])
+
+
+def gen_mass ():
+  """Very many tasks that all sleep: the pings their start and their timer
+  registrations send add up to (and pass) the 1024 octets one read of the
+  wake-up pipe takes."""
+  for n in list(range(508, 516)) + list(range(1020, 1028)) + [341, 342, 2048]:
+    for step in (["sleep", 1], ["num", 2.5]):
+      for drive in (None, "natural"):
+        c = dict(epoll=False, tasks=[dict(steps=[list(step)], prio=1) for _ in range(n)],
+                 timers=[], mass=True)
+        if drive: c["drive"] = drive
+        yield c
 
 
 IO_STEPS = ("sel_to", "sel_data", "recv", "recv_to", "sel_two", "sel_w", "sel_rw", "reuse")
 n_small = [0]
 
 def run (spec, rep):
+  if spec["mode"] == "mass":
+    for case in gen_mass():
+      case["epoll"] = spec["epoll"]
+      if spec.get("hubmode"): case["hubmode"] = spec["hubmode"]
+      do_case(case, rep)
+    return
   if spec["mode"] == "small":
     g = (c for i, c in enumerate(gen_small()) if i % spec["nshards"] == spec["shard"])
   else:
